@@ -48,7 +48,7 @@ fn main() -> ExitCode {
                   retirement, the watched allocation of the vector released, converter called exactly position+1 times, the caller \
                   receives the very Err value / panic payload. non-trivial: failure position >= 1 with >= 1 output already produced \
                   and >= 1 input not yet consumed; distinct by hash of the scenario".to_string(),
-                 format!("fault enumeration: all lengths <= {} x every failure position x 9 (kind, entry point) combinations x all masks of the preceding elements x 11 type pairs = {} scenarios", max_len, n))
+                 format!("fault enumeration: all lengths <= {} x every failure position x 12 (kind, entry point) combinations x all masks of the preceding elements x 11 type pairs = {} scenarios", max_len, n))
             }
             "C10" => {
                 let mut e = enumerate_c10(max_len.max(4));
@@ -57,8 +57,8 @@ fn main() -> ExitCode {
                     cases,
                     threads,
                     || {
-                        (0u8..MM_N, 0u8..MM_N, prop_oneof![2 => Just(0u8), 2 => Just(1u8), 6 => 2u8..40], 0u8..4, any::<bool>())
-                            .prop_map(|(from, to, len, spare, try_entry)| MismatchCase { from, to, len, spare, try_entry })
+                        (0u8..MM_N, 0u8..MM_N, prop_oneof![2 => Just(0u8), 2 => Just(1u8), 6 => 2u8..40], prop_oneof![8 => 0u16..4, 1 => 1000u16..6000], any::<bool>(), prop::bool::weighted(0.2))
+                            .prop_map(|(from, to, len, spare, try_entry, unwinding)| MismatchCase { from, to, len, spare, try_entry, unwinding })
                     },
                     |c| check_mismatch(c).map(|s| info_of(s, false)),
                 );
